@@ -2297,12 +2297,8 @@ func tokenTypes() []simplexer.TokenType{
 		t(LT, methodOps["lt"]),
 		t(ADD_CHAIN, `[&~=]`),
 		t(MAIN_CHAIN, `[\.@$]`),
-		t(IF, `if`),
-		t(ELSE, `else`),
-		t(RETURN, `return`),
-		t(YIELD, `yield`),
-		t(RAISE, `raise`),
-		t(DEFER, `defer`),
+		// NOTE: reserved words (if, else, return, yield, raise, defer) are lexed as IDENT
+		// and converted in Lex(), otherwise names like `iffy` are split into `if` `fy`
 		t(IDENT, ident),
 		t(PRIVATE_IDENT, fmt.Sprintf(`_+(%s)?`, ident)),
 	}
@@ -2367,6 +2363,14 @@ func (l *Lexer) Lex(lval *yySymType) int {
 		l.removeEmbeddedStrTokenTypes()
 	}
 
+	// reserved words are lexed as IDENT
+	tokenID := int(token.Type.GetID())
+	if tokenID == IDENT {
+		if id, ok := reservedWords[token.Literal]; ok {
+			tokenID = id
+		}
+	}
+
 	lval.token = token
 	newSource := l.convertSourceInfo(token)
 	// NOTE: fix Line string because Line refers next line
@@ -2378,7 +2382,16 @@ func (l *Lexer) Lex(lval *yySymType) int {
 	}
 
 	l.Source = newSource
-	return int(token.Type.GetID())
+	return tokenID
+}
+
+var reservedWords = map[string]int{
+	"if":     IF,
+	"else":   ELSE,
+	"return": RETURN,
+	"yield":  YIELD,
+	"raise":  RAISE,
+	"defer":  DEFER,
 }
 
 func (l *Lexer) unknownTokenErrMsg(err *simplexer.UnknownTokenError) string {
